@@ -9,6 +9,8 @@ ASSUMPTIONS = [
     "the model describes pkg/replay/replay.go with fixes/C06-replay-tag-overwrite.diff applied; the function as found at the pinned commit is kept as is_duplicate_v0 with its refutation witness",
     "end-to-end half: C06_replay_rejected_tcp/_udp are the front-door model of model/ServerFront.v (C05) running on the concrete cache with the process-wide parameters; their only premise besides the scenario is that user discovery tries registered keys only; ciphers are arbitrary functions, so the copy is refused whether or not it decrypts",
     "the replay scenarios on the real server are run by the C05 driver in replay mode (harness/cmd/c05 -mode replay, oracle only): recorded genuine sessions of both users on simnet under virtual time, replayed on new TCP connections (whole client-to-server stream, every prefix at a segment boundary, first segment alone, header alone, header+1, first segment minus one byte) and as UDP datagrams from another source address (first datagram, all datagrams), at +0/+30/+119/+239 s inside the cache's retention and +400 s (+800 s thorough) after it, with the original still open or already closed, each time concurrently with a fresh genuine client; zero bytes/datagrams to the replayer, no accepted session, genuine transfers intact, and the cache must still hold the signature inside 360 s",
+    "management reloads: Mux.SetServerUsers (the body of the Reload RPC) is modelled as set_users on the server state (users generation, replay cache) and leaves the cache untouched (C06_reload_leaves_cache_untouched); the no-miss and replay-rejected theorems are restated over histories interleaved with reloads, discovery reading the generation current at that moment (C06_replay_no_miss_across_reload, C06_replay_rejected_across_reload_tcp/_udp). The c06 driver drives the two process-wide cache objects themselves with traffic interleaved with real SetServerUsers calls (users unchanged / added / removed / victim's quota changed / another password changed / repeated) and compares state and answers with the model after every step; the c05 replay mode reloads the live server between recording and replay (before the replays of every offset of even recordings, at +30 s and +239 s of odd ones)",
+    "fixed nonce prefixes: before anything is replayed the c05 replay mode runs three fresh genuine clients per NONCE_TYPE_FIXED prefix length (0..12 bytes) and requires all to be served with the new-session replay counters unchanged; the c06 driver presents about 400 patterned 16-byte inputs (shared prefixes of 0..16 bytes, single-bit and single-position neighbours) that must all be told apart",
     "UDP replays from the SAME source address are outside the property (documented retransmission allowance of the tag rule); the driver reports what happens in report.json notes",
     "exhaustive enumerations are up to renaming of signatures and of non-empty tags (the cache treats them symmetrically: map keys and string equality)",
 ]
@@ -39,7 +41,7 @@ def search(ctx):
     return res
 
 MANIFEST = dict(
-    text="Theorems over the Replay model (two generations signature->tag, rotation by size and by time, expiry of both, tag rule) proved for all histories: a duplicate is reported only for a signature presented before; a signature accepted at t0 is answered by exactly the tag rule against its original tag at every t1 < t0 + interval after fewer than capacity other distinct signatures; retention 3 x KeyRefreshInterval covers the usable life of a key slot and of the timestamp. Constants of the two process-wide caches regenerated from /repo; the real ReplayCache is run under faketime on enumerated and generated histories, every result and state compared with the extracted model and judged against an ideal set. End to end: two theorems state that the server front-door model on this cache refuses a byte-exact copy of an accepted first segment (TCP: whole stream, any prefix containing the header, first segment alone; UDP: from another source address) inside the bounds with no output and no session whether or not it decrypts; the real server on an in-memory network under virtual time is attacked with replays of recorded sessions on both transports across and after the validity window.",
+    text="Theorems over the Replay model (two generations signature->tag, rotation by size and by time, expiry of both, tag rule) proved for all histories: a duplicate is reported only for a signature presented before; a signature accepted at t0 is answered by exactly the tag rule against its original tag at every t1 < t0 + interval after fewer than capacity other distinct signatures; retention 3 x KeyRefreshInterval covers the usable life of a key slot and of the timestamp. Constants of the two process-wide caches regenerated from /repo; the real ReplayCache is run under faketime on enumerated and generated histories, every result and state compared with the extracted model and judged against an ideal set. End to end: two theorems state that the server front-door model on this cache refuses a byte-exact copy of an accepted first segment (TCP: whole stream, any prefix containing the header, first segment alone; UDP: from another source address) inside the bounds with no output and no session whether or not it decrypts; the real server on an in-memory network under virtual time is attacked with replays of recorded sessions on both transports across and after the validity window, with management reloads of the user table between recording and replay; the same theorems are proved over histories interleaved with reloads (a reload replaces the users generation and leaves the cache untouched), and fresh genuine clients with fixed nonce prefixes of 0..12 bytes must never be taken for replays.",
     note="Signatures are treated as the identity of the hashed bytes (FNV-64a collisions outside the model). The pinned code let a replayer take over the stored tag of an entry (refutation theorem + witness kept in the corpus); fixed by fixes/C06-replay-tag-overwrite.diff.",
     technique="Coq proof (two-phase invariant over histories; front-door model instantiated with the concrete cache) + differential run of the extracted model against pkg/replay under Go faketime + replay attacks on the real server on simnet (C05 driver, replay mode)",
 )
